@@ -7,7 +7,7 @@ SCRATCH_ROOT = os.environ.get("VERIF_SCRATCH", "/var/tmp/wild-verif")
 CACHE = os.path.join(VERIF, ".cache")
 WARM_TARGET = os.path.join(CACHE, "kani-target")
 KNOWN_FILE = os.path.join(VERIF, "known_findings.json")
-MEM_LIMIT_KB = int(os.environ.get("VERIF_MEM_KB", str(22 * 1024 * 1024)))
+MEM_LIMIT_KB = int(os.environ.get("VERIF_MEM_KB", str(32 * 1024 * 1024)))
 
 RSYNC_EXCLUDES = ["target", ".git", "wild/tests/build", "external_test_suites", "benchmarks/results"]
 
@@ -586,12 +586,15 @@ def do_setup():
     ov = Overlay("setup")
     ov.create([])
     try:
-        cmd = ["cargo", "kani", "-p", "libwild", "-Z", "stubbing", "--only-codegen", "--target-dir", WARM_TARGET]
-        rc, out, to, wall = run_limited(cmd, ov.src, 3000, os.path.join(ov.root, "setup.log"))
-        print(f"setup: kani dependency cache built in {wall:.0f}s rc={rc}")
-        if rc != 0:
-            print(out[-3000:])
-        return 0 if rc == 0 else 1
+        total_rc = 0
+        for crate in ("libwild", "linker-utils"):
+            cmd = ["cargo", "kani", "-p", crate, "-Z", "stubbing", "--only-codegen", "--target-dir", WARM_TARGET]
+            rc, out, to, wall = run_limited(cmd, ov.src, 3000, os.path.join(ov.root, f"setup-{crate}.log"))
+            print(f"setup: kani dependency cache for {crate} built in {wall:.0f}s rc={rc}")
+            if rc != 0:
+                print(out[-3000:])
+                total_rc = 1
+        return total_rc
     finally:
         ov.remove()
 
